@@ -16,6 +16,7 @@
 #include <sys/mman.h>
 #include <sys/stat.h>
 #include <sys/time.h>
+#include <sys/syscall.h>
 #include <sys/uio.h>
 #include <time.h>
 #include <unistd.h>
@@ -56,6 +57,7 @@ struct OpenDesc
    std::string              path;
    size_t                   off = 0;
    bool                     append = false, rd = false, wr = false;
+   size_t                   harvested = 0;   // bytes of the backing memfd already taken over
 };
 
 constexpr int  kMaxFd = 4096;
@@ -193,9 +195,12 @@ Fault* dueFault( CallClass cc, bool mutating, const CallPos& pos, std::initializ
    return nullptr;
 }
 
+void harvestAll();
+
 void freeze( CallClass cc, const CallPos& pos, const std::string& extra)
 {
    World&  wd = w();
+   harvestAll();   // what glibc already handed to the "kernel" is on the disk
    wd.frozen = true;
    wd.report.crashed = true;
    wd.report.crash_where = std::string( kCallNames[ cc]) + "#" + std::to_string( pos.in_class) + extra;
@@ -211,6 +216,41 @@ int allocFd()
       _exit( 79);
    }
    return fd;
+}
+
+// Code that uses C stdio (fopen + fputs/fgets) instead of iostreams never calls
+// read()/write() through the PLT: glibc goes to the kernel directly, i.e. to the
+// memfd behind the FILE. For reading the memfd therefore carries a copy of the
+// file; bytes that glibc wrote into it are taken over into the simulated file
+// at fflush/fclose, when the disk freezes and whenever the harness looks.
+// (No fault injection on this path.)
+
+void harvest( int fd)
+{
+   World&     wd = w();
+   OpenDesc&  d = wd.fds[ fd];
+   if (!d.used || !d.wr || wd.frozen)
+      return;
+   struct stat  st;
+   if (syscall( SYS_fstat, fd, &st) != 0 || static_cast< size_t>( st.st_size) <= d.harvested)
+      return;
+   std::string  fresh( static_cast< size_t>( st.st_size) - d.harvested, '\0');
+   const ssize_t  got = syscall( SYS_pread64, fd, &fresh[ 0], fresh.size(), static_cast< off_t>( d.harvested));
+   if (got <= 0)
+      return;
+   fresh.resize( static_cast< size_t>( got));
+   d.harvested += fresh.size();
+   if (d.append) d.off = d.node->data.size();
+   if (d.off > d.node->data.size()) d.node->data.resize( d.off, '\0');
+   d.node->data.replace( d.off, std::min( fresh.size(), d.node->data.size() - d.off), fresh);
+   d.off += fresh.size();
+   ev( "stdio-write", d.path, static_cast< long long>( fresh.size()), static_cast< long long>( fresh.size()));
+}
+
+void harvestAll()
+{
+   for (int fd = 0; fd < kMaxFd; ++fd)
+      if (w().fds[ fd].used) harvest( fd);
 }
 
 FILE* simOpen( const char* cpath, const char* mode)
@@ -252,6 +292,18 @@ FILE* simOpen( const char* cpath, const char* mode)
       if (m0 == 'w') node->data.clear();
    }
    const int  fd = allocFd();
+   if ((m0 == 'r') && !node->dir && !node->data.empty())
+   {
+      // copy for readers that bypass read() (C stdio)
+      size_t  done = 0;
+      while (done < node->data.size())
+      {
+         const ssize_t  n = syscall( SYS_write, fd, node->data.data() + done, node->data.size() - done);
+         if (n <= 0) break;
+         done += static_cast< size_t>( n);
+      }
+      syscall( SYS_lseek, fd, 0, SEEK_SET);
+   }
    static auto  real_fdopen = real( __interceptor_fdopen, "fdopen");
    FILE*  fp = real_fdopen( fd, mode);
    if (fp == nullptr) { close( fd); errno = EMFILE; return nullptr; }
@@ -387,6 +439,7 @@ void putDir( const std::string& path) { removeNode( path); mkdirs( path); }
 
 bool getFile( const std::string& path, std::string& content)
 {
+   harvestAll();
    auto  n = find( norm( path));
    if (n == nullptr || n->dir) return false;
    content = n->data;
@@ -513,6 +566,12 @@ extern "C" int fclose( FILE* fp)
    if (simFd( fd))
    {
       World&         wd = w();
+      if (wd.fds[ fd].wr)
+      {
+         static auto  real_fflush = real( static_cast< int (*)( FILE*)>( nullptr), "fflush");
+         real_fflush( fp);
+         harvest( fd);
+      }
       const CallPos  pos = countCall( ccClose, true);
       if (!wd.frozen && dueFault( ccClose, true, pos, { "crash" }) != nullptr)
          freeze( ccClose, pos, "");
@@ -520,6 +579,18 @@ extern "C" int fclose( FILE* fp)
       wd.fds[ fd] = OpenDesc();
    }
    return fn( fp);
+}
+
+extern "C" int fflush( FILE* fp)
+{
+   static auto  fn = real( static_cast< int (*)( FILE*)>( nullptr), "fflush");
+   const int    rc = fn( fp);
+   if (g_ready)
+   {
+      if (fp == nullptr) harvestAll();
+      else { const int fd = fileno( fp); if (simFd( fd)) harvest( fd); }
+   }
+   return rc;
 }
 
 extern "C" ssize_t write( int fd, const void* buf, size_t n)
@@ -673,6 +744,100 @@ extern "C" int mkdir( const char* path, mode_t mode)
    }
    static auto  fn = real( static_cast< int (*)( const char*, mode_t)>( nullptr), "mkdir");
    return fn( path, mode);
+}
+
+// ----- file status and access checks (std::filesystem, hand written checks)
+
+namespace {
+
+int simStat( const char* cpath, struct stat* st)
+{
+   const std::string  p = norm( cpath);
+   countCall( ccStat, false);
+   if (w().frozen) { errno = EIO; return -1; }
+   auto  n = find( p);
+   if (n == nullptr) { errno = ENOENT; ev( "stat", p, 0, -ENOENT); return -1; }
+   memset( st, 0, sizeof( *st));
+   st->st_mode = n->dir ? (S_IFDIR | 0755) : (S_IFREG | (n->unreadable ? 0200 : 0644));
+   st->st_nlink = 1;
+   st->st_size = n->dir ? 4096 : static_cast< off_t>( n->data.size());
+   st->st_blksize = 4096;
+   st->st_blocks = (st->st_size + 511) / 512;
+   st->st_ino = static_cast< ino_t>( reinterpret_cast< uintptr_t>( n.get()) >> 4);
+   st->st_mtime = st->st_atime = st->st_ctime = static_cast< time_t>( w().now);
+   ev( "stat", p, 0, st->st_size);
+   return 0;
+}
+
+} // namespace
+
+extern "C" int stat( const char* path, struct stat* st)
+{
+   if (isSim( path)) return simStat( path, st);
+   static auto  fn = real( static_cast< int (*)( const char*, struct stat*)>( nullptr), "stat");
+   return fn( path, st);
+}
+
+extern "C" int lstat( const char* path, struct stat* st)
+{
+   if (isSim( path)) return simStat( path, st);
+   static auto  fn = real( static_cast< int (*)( const char*, struct stat*)>( nullptr), "lstat");
+   return fn( path, st);
+}
+
+extern "C" int stat64( const char* path, struct stat64* st)
+{
+   if (isSim( path)) return simStat( path, reinterpret_cast< struct stat*>( st));
+   static auto  fn = real( static_cast< int (*)( const char*, struct stat64*)>( nullptr), "stat64");
+   return fn( path, st);
+}
+
+extern "C" int lstat64( const char* path, struct stat64* st)
+{
+   if (isSim( path)) return simStat( path, reinterpret_cast< struct stat*>( st));
+   static auto  fn = real( static_cast< int (*)( const char*, struct stat64*)>( nullptr), "lstat64");
+   return fn( path, st);
+}
+
+extern "C" int fstatat( int dirfd, const char* path, struct stat* st, int flags)
+{
+   if (isSim( path)) return simStat( path, st);
+   static auto  fn = real( static_cast< int (*)( int, const char*, struct stat*, int)>( nullptr), "fstatat");
+   return fn( dirfd, path, st, flags);
+}
+
+extern "C" int fstatat64( int dirfd, const char* path, struct stat64* st, int flags)
+{
+   if (isSim( path)) return simStat( path, reinterpret_cast< struct stat*>( st));
+   static auto  fn = real( static_cast< int (*)( int, const char*, struct stat64*, int)>( nullptr), "fstatat64");
+   return fn( dirfd, path, st, flags);
+}
+
+extern "C" int access( const char* path, int mode)
+{
+   if (isSim( path))
+   {
+      struct stat  st;
+      if (simStat( path, &st) != 0) return -1;
+      if ((mode & R_OK) && !(st.st_mode & 0400)) { errno = EACCES; return -1; }
+      return 0;
+   }
+   static auto  fn = real( static_cast< int (*)( const char*, int)>( nullptr), "access");
+   return fn( path, mode);
+}
+
+extern "C" int fsync( int fd)
+{
+   if (simFd( fd)) return w().frozen ? (errno = EIO, -1) : 0;
+   static auto  fn = real( static_cast< int (*)( int)>( nullptr), "fsync");
+   return fn( fd);
+}
+
+extern "C" int fdatasync( int fd)
+{
+   if (simFd( fd)) return w().frozen ? (errno = EIO, -1) : 0;
+   static auto  fn = real( static_cast< int (*)( int)>( nullptr), "fdatasync");
+   return fn( fd);
 }
 
 extern "C" char* getenv( const char* name)
